@@ -161,6 +161,7 @@ type runner struct {
 	mm         *finding
 
 	park *parkState // a listing is running concurrently (concurrent-listing mode)
+	rec  *[]lineRec // when set: one record per applied line
 }
 
 // parkState: T1 sits inside FetchContents of a lazy child directory (holding its
@@ -216,7 +217,52 @@ func (r *runner) mismatch(name, what, exp, act string) {
 	if r.mm == nil {
 		r.mm = &finding{kind: "mismatch", what: what, name: name, exp: exp, act: act}
 	}
+	r.dropModel()
+}
+
+// dropModel: from here on the history runs under the monitor alone. Identifiers
+// keep counting from where the model stood, so that the numbering of a history
+// is "order of allocation" throughout (the shrinker relies on that).
+func (r *runner) dropModel() {
+	if r.drv == nil {
+		return
+	}
+	if d, l, _, ok := r.modelSizes(); ok {
+		for len(r.mDirs) < d {
+			r.mDirs = append(r.mDirs, nil)
+		}
+		for len(r.mLeaves) < l {
+			r.mLeaves = append(r.mLeaves, nil)
+		}
+	}
 	r.drv = nil
+}
+
+func (r *runner) modelSizes() (d, l, t int, ok bool) {
+	if r.drv == nil {
+		return 0, 0, 0, false
+	}
+	out, err := r.drv.Ask("sizes")
+	if err != nil {
+		return 0, 0, 0, false
+	}
+	if n, _ := fmt.Sscanf(out, "%d %d %d", &d, &l, &t); n != 3 {
+		return 0, 0, 0, false
+	}
+	return d, l, t, true
+}
+
+// sizes: how many directory / leaf / template ids have been handed out so far.
+func (r *runner) sizes() [3]int {
+	if d, l, t, ok := r.modelSizes(); ok {
+		return [3]int{d, l, t}
+	}
+	return [3]int{len(r.mDirs), len(r.mLeaves), len(r.tmpls)}
+}
+
+// lineRec: the ids a history line allocated (recorded for the shrinker).
+type lineRec struct {
+	before, after [3]int
 }
 
 func (r *runner) result() *finding {
@@ -929,11 +975,57 @@ func startWatchdog(res *hx.Result, o hx.Opts, drv *hx.Driver) {
 	}()
 }
 
-// apply executes one history line on implementation, model and reference.
+// apply executes one history line and then makes sure that no directory lock was
+// left behind (C14's hook VerifLockIsFree on every directory the harness knows).
 func (r *runner) apply(line string) {
 	if r.fail != nil || r.dead {
 		return
 	}
+	var before [3]int
+	if r.rec != nil {
+		if !r.configured { // the driver still holds the store of the previous history
+			before = [3]int{0, 0, 1}
+		} else {
+			before = r.sizes()
+		}
+	}
+	r.apply1(line)
+	r.checkLocks(line)
+	if r.rec != nil {
+		after := r.sizes()
+		for i := range after {
+			if after[i] < before[i] {
+				after[i] = before[i]
+			}
+		}
+		*r.rec = append(*r.rec, lineRec{before: before, after: after})
+	}
+}
+
+// checkLocks: C14's hook on every directory the harness knows. Called right after
+// the implementation returned, before anything else takes a directory lock.
+func (r *runner) checkLocks(line string) {
+	if r.dead || (r.fail != nil && r.fail.kind == "violation") {
+		return
+	}
+	for id, p := range r.mDirs {
+		if p == nil {
+			continue
+		}
+		if r.park != nil && (p == r.park.d || p == r.park.child) {
+			continue // held on purpose by the concurrent listing / the gated fetcher
+		}
+		if free, ok := virtual.VerifLockIsFree(dirOf(p)); ok && !free {
+			r.fail = &finding{kind: "violation", what: fmt.Sprintf("%s: the call returned but the lock of directory D%d is still held (the next call on it would never return)", line, id),
+				name: "C13 correspondence, C14-flavoured: every call releases the directory locks it took (VerifLockIsFree)"}
+			r.dead = true // touching that directory again would hang
+			return
+		}
+	}
+}
+
+// apply1 executes one history line on implementation, model and reference.
+func (r *runner) apply1(line string) {
 	heartbeat(line, false)
 	f := strings.Fields(line)
 	if len(f) == 0 {
@@ -987,6 +1079,9 @@ func (r *runner) apply(line string) {
 	std := func(modelLine string, impl func() implOut, ref func() rout) {
 		pre = r.snapshot()
 		o = protect(impl)
+		if o.status != "panic" {
+			r.checkLocks(line)
+		}
 		r.cmpModel(line, o, r.ask(modelLine))
 		ro = ref()
 		if o.status == "panic" {
@@ -1490,7 +1585,7 @@ func (r *runner) clist(line string, f []string) {
 	}
 	// from here on the history is judged by the monitor alone (the model's
 	// VirtualReadDir is atomic per page)
-	r.drv = nil
+	r.dropModel()
 	got, err := dirOf(d).LookupChild(comp(e.name))
 	cd, _ := got.GetPair()
 	if err != nil || cd == nil || !r.bindRefDir(e.dir, cd) {
@@ -1920,7 +2015,7 @@ func (r *runner) filter(line string, d any, rd *rdir, id, limit, rmMask int, syn
 			case same:
 				ml = fmt.Sprintf("remove %s %s", mfs[i][0], mfs[i][1])
 			default:
-				r.drv = nil // cannot name the directory in model ids: continue under the monitor alone
+				r.dropModel() // cannot name the directory in model ids: continue under the monitor alone
 				continue
 			}
 			if got := parseModel(r.ask(ml)); got.status != c.result {
@@ -2449,9 +2544,18 @@ type outcome struct {
 }
 
 func replay(lines []string, drv *hx.Driver, seed uint64) outcome {
+	out, _ := replayRec(lines, drv, seed, false)
+	return out
+}
+
+func replayRec(lines []string, drv *hx.Driver, seed uint64, record bool) (outcome, []lineRec) {
 	heartbeat("", true)
 	r := newRunner(drv)
 	r.seed = seed
+	var recs []lineRec
+	if record {
+		r.rec = &recs
+	}
 	for _, l := range lines {
 		r.apply(l)
 	}
@@ -2461,7 +2565,130 @@ func replay(lines []string, drv *hx.Driver, seed uint64) outcome {
 	if !r.dead {
 		r.apply("check")
 	}
-	return outcome{fail: r.result(), steps: r.steps, skipped: r.skipped, flags: r.flags, counts: r.counts}
+	return outcome{fail: r.result(), steps: r.steps, skipped: r.skipped, flags: r.flags, counts: r.counts}, recs
+}
+
+// ---- id-aware shrinking -------------------------------------------------------------
+//
+// Identifiers in a history are allocation order (directories, leaves, templates).
+// Dropping a line shifts everything allocated later, so a plain delta debugger
+// only ever removes suffixes.  rewrite drops a set of lines together with every
+// later line that refers to something those lines allocated, and renumbers the
+// references of the lines that stay.
+
+// refKinds tells, for the tokens of a line, which are ids (0 dir, 1 leaf, 2 template).
+func refKinds(f []string) map[int]int {
+	m := map[int]int{}
+	triples := func(from int) {
+		for i := from; i+2 < len(f); i += 3 {
+			switch f[i+1] {
+			case "L":
+				m[i+2] = 1
+			case "D":
+				m[i+2] = 2
+			}
+		}
+	}
+	if len(f) == 0 {
+		return m
+	}
+	switch f[0] {
+	case "mkdir", "mknod", "open", "lookup", "readdir", "vremove", "getattr", "lookupchild", "lookupall", "readdirb",
+		"remove", "removeall", "removeallchildren", "createandenter", "filter", "installhooks", "clist":
+		m[1] = 0
+	case "link":
+		m[1], m[3] = 0, 1
+	case "rename":
+		m[1], m[3] = 0, 0
+	case "createchildren":
+		m[1] = 0
+		triples(3)
+	case "deftmpl":
+		triples(1)
+	}
+	return m
+}
+
+func rewrite(lines []string, recs []lineRec, drop func(int) bool) []string {
+	maps := [3]map[int]int{{}, {}, {0: 0}}
+	next := [3]int{0, 0, 1}
+	var out []string
+	for j, line := range lines {
+		f := strings.Fields(line)
+		dropped := drop(j)
+		kinds := refKinds(f)
+		if !dropped {
+			for pos, kind := range kinds {
+				if pos < len(f) {
+					if id, err := strconv.Atoi(f[pos]); err == nil {
+						if nw, ok := maps[kind][id]; ok && nw < 0 {
+							dropped = true
+						}
+					}
+				}
+			}
+		}
+		if !dropped {
+			for pos, kind := range kinds {
+				if pos < len(f) {
+					if id, err := strconv.Atoi(f[pos]); err == nil {
+						if nw, ok := maps[kind][id]; ok {
+							f[pos] = strconv.Itoa(nw)
+						}
+					}
+				}
+			}
+			out = append(out, strings.Join(f, " "))
+		}
+		if j < len(recs) {
+			for kind := 0; kind < 3; kind++ {
+				for id := recs[j].before[kind]; id < recs[j].after[kind]; id++ {
+					if kind == 2 && id == 0 {
+						continue
+					}
+					if dropped {
+						maps[kind][id] = -1
+					} else {
+						maps[kind][id] = next[kind]
+						next[kind]++
+					}
+				}
+			}
+		}
+	}
+	return out
+}
+
+// shrinkIDs: delta debugging with rewrite; try(cand) says whether cand still fails
+// and returns its allocation records.
+func shrinkIDs(lines []string, try func([]string) (bool, []lineRec)) []string {
+	ok, recs := try(lines)
+	if !ok {
+		return lines
+	}
+	cur := lines
+	for round := 0; round < 3; round++ {
+		before := len(cur)
+		for chunk := (len(cur) + 1) / 2; chunk >= 1; chunk /= 2 {
+			for i := 0; i+chunk <= len(cur); {
+				cand := rewrite(cur, recs, func(j int) bool { return j >= i && j < i+chunk })
+				if os.Getenv("SHRINKDBG") != "" {
+					fmt.Fprintln(os.Stderr, "try", chunk, i, len(cur), len(cand))
+				}
+				if len(cand) < len(cur) {
+					if ok, r2 := try(cand); ok {
+						cur, recs = cand, r2
+						continue
+					}
+				}
+				i += chunk
+			}
+		}
+		if len(cur) == before {
+			break
+		}
+	}
+	return cur
 }
 
 func generate(rnd *hx.Rand, drv *hx.Driver, seed uint64, n int) ([]string, outcome) {
@@ -2520,11 +2747,17 @@ func main() {
 	startWatchdog(res, o, drv)
 
 	report := func(lines []string, seed uint64, first *finding) {
-		fails := func(cand []string) bool {
-			out := replay(cand, drv, seed)
-			return out.fail != nil && out.fail.kind == first.kind
+		try := func(cand []string) (bool, []lineRec) {
+			out, recs := replayRec(cand, drv, seed, true)
+			if os.Getenv("SHRINKDBG") != "" {
+				fmt.Fprintln(os.Stderr, "  result", out.fail != nil, cand)
+				if out.fail != nil {
+					fmt.Fprintln(os.Stderr, "  ", out.fail.kind, out.fail.what)
+				}
+			}
+			return out.fail != nil && out.fail.kind == first.kind, recs
 		}
-		min := hx.Shrink(lines, fails)
+		min := shrinkIDs(lines, try)
 		out := replay(min, drv, seed)
 		fd := out.fail
 		if fd == nil {
